@@ -57,7 +57,24 @@ Definition first_act (s : st) : option nat :=
   | [] => None
   end.
 
-Definition do_label (g : gates) (c : Z) (s : st) (stat : list Z) : st * list Z :=
+(* Bare server_activate() calls (label 22) live outside the LTS: the LTS knows the activation only as the first phase of
+   serve_forever.  A bare activation needs the activation lock and runs the same (gated) listeners factory:
+     closed server                      -> ServerClosedError at once
+     listeners already there            -> returns at once
+     factory gate open, nobody activating -> listeners open, returns
+     otherwise it is pending ([held]): inside the gated factory, or queued on the activation lock behind the activation of
+       a serve_forever; it ends when the gate is released (listeners are open then: returns), when server_close() arrives
+       (its scope is cancelled / it finds the factory gone: ServerClosedError) or when the factory fails (status 7). *)
+Definition resolve_held (code : Z) (held : list nat) (stat : list Z) : list Z :=
+  fold_left (fun st id => set_nth id code st) held stat.
+
+Definition call_step (s : st) (c : Z) : st * list obs :=
+  match ext_label c with
+  | Some l => match step s l with Some r => r | None => (s, []) end
+  | None => (s, [])
+  end.
+
+Definition do_label (g : gates) (c : Z) (s : st) (held : list nat) (stat : list Z) : st * list nat * list Z :=
   let g' := match c with
             | 6 => {| g_factory := false; g_init := g_init g; g_client := g_client g; g_quit := g_quit g |}
             | 7 => {| g_factory := g_factory g; g_init := false; g_client := g_client g; g_quit := g_quit g |}
@@ -65,28 +82,77 @@ Definition do_label (g : gates) (c : Z) (s : st) (stat : list Z) : st * list Z :
             | 19 => {| g_factory := g_factory g; g_init := g_init g; g_client := g_client g; g_quit := false |}
             | _ => g
             end in
-  let '(s1, o1) := match ext_label c with
-                   | Some l => match step s l with Some r => r | None => (s, []) end
-                   | None =>
-                       if Z.eqb c 17   (* the held listeners factory is released with a bind error *)
-                       then match first_act s with
-                            | Some id => match step s (LFactoryFail id) with Some r => r | None => (s, []) end
-                            | None => (s, [])
-                            end
-                       else (s, [])
-                   end in
+  (* 100 + 10 a + b: call a and call b (0 serve, 1 shutdown, 2 close) issued by two tasks back to back: b starts while a
+     is at its first checkpoint; one observation after both *)
+  let pair := (Z.leb 100 c && Z.ltb c 200)%bool in
+  let ca := (c - 100) / 10 in
+  let cb := (c - 100) mod 10 in
+  (* 30 + k: a lone server_activate() from its own task and, k loop iterations into it, server_close().  Whether the
+     activation had already finished, is refused, or is cancelled in flight depends on k and on the listeners factory; the
+     server ends in the same state in all three cases (closed, no listener), and the activation call is over either way
+     (its slot says 1).  Second slot: the server_close() call. *)
+  let race := (Z.leb 30 c && Z.ltb c 50)%bool in
+  let closes := (Z.eqb c 2 || Z.eqb c 20 || race || (pair && (Z.eqb ca 2 || Z.eqb cb 2)))%bool in
+  (* the pending bare activations first: a close refuses them, a release lets them finish *)
+  let '(s0, held0, stat0) :=
+    if closes then (s, [], resolve_held 3 held (pad (next_id s) stat))
+    else if Z.eqb c 6 then ((if closed s then s else match held with [] => s | _ => set_lst s LOpen end), [],
+                            resolve_held (if closed s then 3 else 1) held (pad (next_id s) stat))
+    else if Z.eqb c 17 then (s, [], resolve_held 7 held (pad (next_id s) stat))
+    else (s, held, stat) in
+  let '(s1, o1, held1, forced) :=
+    if Z.eqb c 22 then
+      let id := next_id s0 in
+      let sb := bump_id s0 in
+      if closed s0 then (sb, [], held0, [(id, 3)])
+      else match lst s0 with
+           | LEmpty => if (g_factory g' || match first_act s0 with Some _ => true | None => false end)%bool
+                       then (sb, [], held0 ++ [id], [])
+                       else (set_lst sb LOpen, [], held0, [(id, 1)])
+           | _ => (sb, [], held0, [(id, 1)])
+           end
+    else if race then
+      let id := next_id s0 in
+      let '(sc, oc) := call_step (bump_id s0) 2 in
+      (sc, oc, held0, [(id, 1)])
+    else if pair then
+      let '(sa, oa) := call_step s0 ca in
+      let '(sb, ob) := call_step sa cb in
+      (sb, oa ++ ob, held0, [])
+    else
+      let '(sy, oy) := match ext_label c with
+                       | Some l => match step s0 l with Some r => r | None => (s0, []) end
+                       | None =>
+                           if Z.eqb c 17   (* the held listeners factory is released with a bind error *)
+                           then match first_act s0 with
+                                | Some id => match step s0 (LFactoryFail id) with Some r => r | None => (s0, []) end
+                                | None => (s0, [])
+                                end
+                           else (s0, [])
+                       end in
+      (sy, oy, held0, []) in
   let '(s2, o2) := settle FUEL g' s1 in
-  let stat2 := apply_obs (o1 ++ o2) (pad (next_id s2) stat) in
-  (s2, if (Z.eqb c 20 || Z.eqb c 21)%bool
-       then (if Z.eqb (nth (next_id s) stat2 0) 0 then set_nth (next_id s) 1 stat2 else stat2)
-       else stat2).
+  (* a bare activation queued behind the activation of a serve_forever ends with it *)
+  let '(held2, statq) :=
+    match held1, first_act s2 with
+    | _ :: _, None => if g_factory g' then (held1, pad (next_id s2) stat0)
+                      else ([], resolve_held (if closed s2 then 3 else 1) held1 (pad (next_id s2) stat0))
+    | _, _ => (held1, pad (next_id s2) stat0)
+    end in
+  let stat2 := apply_obs (o1 ++ o2) statq in
+  let stat3 := fold_left (fun st f => set_nth (fst f) (snd f) st) forced stat2 in
+  (s2, held2,
+   if (Z.eqb c 20 || Z.eqb c 21)%bool
+   then (if Z.eqb (nth (next_id s) stat3 0) 0 then set_nth (next_id s) 1 stat3 else stat3)
+   else stat3).
 
-Fixpoint run_labels (g : gates) (cs : list Z) (s : st) (stat : list Z) : list sx :=
+Fixpoint run_labels (g : gates) (cs : list Z) (s : st) (held : list nat) (stat : list Z) : list sx :=
   match cs with
   | [] => []
   | c :: cs' =>
-      let '(s', stat') := do_label g c s stat in
-      L [L (map A stat'); of_bool (is_serving s'); of_bool (is_listening s'); of_bool (is_listening s')] :: run_labels g cs' s' stat'
+      let '(s', held', stat') := do_label g c s held stat in
+      L [L (map A stat'); of_bool (is_serving s'); of_bool (is_listening s'); of_bool (is_listening s')]
+        :: run_labels g cs' s' held' stat'
   end.
 
 (* ---- standalone (threaded) servers: BaseStandaloneNetworkServerImpl around a FRESH asynchronous server per
@@ -321,20 +387,39 @@ Fixpoint srun_labels (g : sgates) (cs : list Z) (x : sst) : list sx :=
       L [L (map A (sstat x')); of_bool sv; of_bool ls; of_bool ls] :: srun_labels g cs' x'
   end.
 
+(* standalone world "the service's tear-down fails" (init gate value 2, labels 0 / 1 / 2 only, so call slot i belongs to
+   label i): a callback pushed by service_init raises while the server is torn down.  A serve_forever call that got as far
+   as serving (every other one is refused with status 2 / 3) ends with that error (status 10) instead of returning;
+   shutdown() and server_close() are not affected: they return once serving has stopped. *)
+Fixpoint mark_failed (cs : list Z) (st : list sx) : list sx :=
+  match cs, st with
+  | c :: cs', A v :: st' => A (if (Z.eqb c 0 && Z.eqb v 1)%bool then 10 else v) :: mark_failed cs' st'
+  | _, _ => st
+  end.
+
+Definition failing_teardown (cs : list Z) (out : sx) : sx :=
+  match out with
+  | L obs => L (map (fun o => match o with
+                              | L (L st :: rest) => L (L (mark_failed cs st) :: rest)
+                              | _ => o
+                              end) obs)
+  | _ => out
+  end.
+
 Definition run (x : sx) : sx :=
   match x with
   | L (A k :: L [A gf; A gi; A gc; A gq] :: L cs :: _) =>
       do cs <- map_opt as_Z cs;
       L (run_labels {| g_factory := negb (Z.eqb gf 0); g_init := negb (Z.eqb gi 0); g_client := negb (Z.eqb gc 0);
-                       g_quit := negb (Z.eqb gq 0) |} cs init [])
+                       g_quit := negb (Z.eqb gq 0) |} cs init [] [])
   | L (A k :: L [A gf; A gi; A gc] :: L cs :: _) =>
       do cs <- map_opt as_Z cs;
       if Z.leb 2 k
-      then L (srun_labels {| sg_window := negb (Z.eqb gf 0); sg_init := negb (Z.eqb gi 0); sg_teardown := negb (Z.eqb gc 0) |} cs
+      then (if Z.eqb gi 2 then failing_teardown cs else (fun x => x)) (L (srun_labels {| sg_window := negb (Z.eqb gf 0); sg_init := Z.eqb gi 1; sg_teardown := negb (Z.eqb gc 0) |} cs
                 {| tclosed := false; arun := None; cur := O; sstat := []; window := false; blocked := []; pre := None;
-                   hung := []; tdown := None; isup := false; starts := []; paused := None; heldc := false; heldb := false |})
+                   hung := []; tdown := None; isup := false; starts := []; paused := None; heldc := false; heldb := false |}))
       else
       L (run_labels {| g_factory := negb (Z.eqb gf 0); g_init := negb (Z.eqb gi 0); g_client := negb (Z.eqb gc 0);
-                       g_quit := false |} cs init [])
+                       g_quit := false |} cs init [] [])
   | _ => bad_input
   end.
